@@ -7,7 +7,8 @@
    wrappers, inside multi-cause branches.  The theorems say that NO cause-analysis
    function can tell them apart (non-interference), for every context. *)
 From Errv Require Import Base.Str Redact.Markers Model.Err Model.Sem Model.Details Model.Marks
-     Model.Access Model.Report Model.Std Model.Codec Proofs.FastIs Proofs.MarksFacts Proofs.HiddenFacts Proofs.HiddenNI.
+     Model.Access Model.Report Model.Std Model.Codec Proofs.FastIs Proofs.MarksFacts Proofs.HiddenFacts Proofs.HiddenNI
+     Proofs.HiddenVisible.
 
 (* nothing hidden is reachable through Unwrap / Cause / UnwrapAll *)
 Theorem C07_not_reachable : forall i m h c s,
@@ -118,6 +119,32 @@ Proof.
   exists n1, h', (Pos.succ n1). split; reflexivity.
 Qed.
 Print Assumptions C07_transfer_barrier.
+
+(* ... while remaining visible in the verbose rendering and contributing to the safe details
+   (Proofs/HiddenVisible.v).  [indent_detail] is what the engine does to nested detail text:
+   continuation lines get the margin "  | "; the un-indented text is NOT a substring
+   (witness unindented_infix_refuted there). *)
+Theorem C07_barrier_visible_in_verbose : forall i smsg m,
+  infix_of (barrier_line ++ indent_detail (fmt_red_verbose m)) (fmt_red_verbose (Barrier i smsg m)).
+Proof. exact barrier_verbose_shows_hidden_line. Qed.
+Print Assumptions C07_barrier_visible_in_verbose.
+
+Theorem C07_secondary_visible_in_verbose : forall i c s,
+  infix_of (secondary_line ++ indent_detail (fmt_red_verbose s)) (fmt_red_verbose (Second i c s)).
+Proof. exact secondary_verbose_shows_hidden_line. Qed.
+Print Assumptions C07_secondary_visible_in_verbose.
+
+Theorem C07_hidden_safe_details : forall i smsg m c s,
+  sd_details (get_safe_details (Barrier i smsg m)) =
+    filled_details m ++ [lit "masked error: " ++ redact_strip (fmt_red_verbose m)] /\
+  sd_details (get_safe_details (Second i c s)) = filled_details s.
+Proof. intros. split; [apply barrier_get_safe_details | apply secondary_get_safe_details]. Qed.
+Print Assumptions C07_hidden_safe_details.
+
+Theorem C07_hidden_details_contribute : forall h p d,
+  In p (get_all_safe_details h) -> In d (sd_details p) -> In (lit "  " ++ d) (filled_details h).
+Proof. exact hidden_details_contribute. Qed.
+Print Assumptions C07_hidden_details_contribute.
 
 Example C07_example :
   let hidden1 := Wrap 101%positive (WHint (lit "secret hint")) (Leaf oid_canceled (LErrString (lit "context canceled"))) in
